@@ -207,14 +207,40 @@ func stateOp(call ssa.CallInstruction) (StateOp, bool) {
 	return op, true
 }
 
+// stateOpsOf is stateOp with keys taken from a constant array (a loop over a
+// literal list of keys) expanded into one operation per key.
+func stateOpsOf(call ssa.CallInstruction) []StateOp {
+	op, ok := stateOp(call)
+	if !ok {
+		return nil
+	}
+	if op.Const || op.Op == "delall" {
+		return []StateOp{op}
+	}
+	if cs := constSet(Arg(call, 1)); len(cs) > 0 {
+		var out []StateOp
+		for _, c := range cs {
+			if s, ok := ConstStr(c); ok {
+				o := op
+				o.Key, o.Const = s, true
+				out = append(out, o)
+			}
+		}
+		if len(out) == len(cs) {
+			return out
+		}
+	}
+	return []StateOp{op}
+}
+
 // StateOps lists the client-state primitive calls of fn, expanding calls to
 // repository helpers that consist of such primitives (DelKnownSession,
 // DelKnownCookie, and any new straight-line helper) one level deep.
 func (c *Ctx) StateOps(fn *ssa.Function) []StateOp {
 	var out []StateOp
 	for _, call := range Calls(fn) {
-		if op, ok := stateOp(call); ok {
-			out = append(out, op)
+		if ops := stateOpsOf(call); len(ops) > 0 {
+			out = append(out, ops...)
 			continue
 		}
 		if f := StaticCallee(call); f != nil && f.Blocks != nil && f.Pkg != nil && c.P.ByPath[f.Pkg.Pkg.Path()] != nil && len(f.Blocks) == 1 {
@@ -249,8 +275,8 @@ func (c *Ctx) isStateOp(op, store, key string) func(ssa.Instruction) bool {
 }
 
 func (c *Ctx) opsOfCall(call ssa.CallInstruction) []StateOp {
-	if op, ok := stateOp(call); ok {
-		return []StateOp{op}
+	if ops := stateOpsOf(call); len(ops) > 0 {
+		return ops
 	}
 	var out []StateOp
 	if f := StaticCallee(call); f != nil && f.Blocks != nil && f.Pkg != nil && c.P.ByPath[f.Pkg.Pkg.Path()] != nil && len(f.Blocks) == 1 {
@@ -273,6 +299,7 @@ type Fire struct {
 	Before  bool
 	Event   int64
 	Const   bool
+	Events  []int64 // all events this site fires (a loop over a literal list), len 1 for a constant
 	Handled ssa.Value // result #0
 	Err     ssa.Value // result #1
 	Req     ssa.Value // request argument
@@ -287,6 +314,13 @@ func fireOf(call ssa.CallInstruction) (Fire, bool) {
 	f := Fire{Call: call, Before: n == fnFireBefore}
 	if v, ok := ConstInt(Arg(call, 1)); ok {
 		f.Event, f.Const = v, true
+		f.Events = []int64{v}
+	} else if cs := constSet(Arg(call, 1)); len(cs) > 0 {
+		for _, c := range cs {
+			if v, ok := ConstInt(c); ok {
+				f.Events = append(f.Events, v)
+			}
+		}
 	}
 	f.Handled = ResultValue(call, 0)
 	f.Err = ResultValue(call, 1)
@@ -299,6 +333,14 @@ func Fires(fn *ssa.Function) []Fire {
 	var out []Fire
 	for _, call := range Calls(fn) {
 		if f, ok := fireOf(call); ok {
+			if !f.Const && len(f.Events) > 0 {
+				for _, e := range f.Events {
+					g := f
+					g.Event, g.Const = e, true
+					out = append(out, g)
+				}
+				continue
+			}
 			out = append(out, f)
 		}
 	}
@@ -320,10 +362,19 @@ func (c *Ctx) buildWiring() {
 	for _, fn := range c.P.Funcs {
 		for _, call := range CallsTo(fn, fnBefore, fnAfter) {
 			w := Wire{Call: call, Before: Callee(call) == fnBefore, In: fn}
+			w.Handler, w.Name = c.resolveFuncValue(Arg(call, 2))
 			if v, ok := ConstInt(Arg(call, 1)); ok {
 				w.Event, w.Const = v, true
+			} else if cs := constSet(Arg(call, 1)); len(cs) > 0 {
+				for _, k := range cs {
+					if v, ok := ConstInt(k); ok {
+						x := w
+						x.Event, x.Const = v, true
+						c.wiring = append(c.wiring, x)
+					}
+				}
+				continue
 			}
-			w.Handler, w.Name = c.resolveFuncValue(Arg(call, 2))
 			c.wiring = append(c.wiring, w)
 		}
 	}
@@ -587,4 +638,44 @@ func structOf(t types.Type) *types.Struct {
 	}
 	st, _ := t.Underlying().(*types.Struct)
 	return st
+}
+
+// constSet: when v is an element of a local array/slice literal of constants
+// (typically the loop variable of a range over such a literal), the constants.
+func constSet(v ssa.Value) []*ssa.Const {
+	u, ok := v.(*ssa.UnOp)
+	if !ok {
+		return nil
+	}
+	ia, ok := u.X.(*ssa.IndexAddr)
+	if !ok {
+		return nil
+	}
+	base := ia.X
+	if sl, ok := base.(*ssa.Slice); ok {
+		base = sl.X
+	}
+	a, ok := base.(*ssa.Alloc)
+	if !ok || a.Referrers() == nil {
+		return nil
+	}
+	var out []*ssa.Const
+	for _, r := range *a.Referrers() {
+		e, ok := r.(*ssa.IndexAddr)
+		if !ok || e.Referrers() == nil {
+			continue
+		}
+		for _, rr := range *e.Referrers() {
+			st, ok := rr.(*ssa.Store)
+			if !ok {
+				continue
+			}
+			c, isC := st.Val.(*ssa.Const)
+			if !isC {
+				return nil // a non-constant element: not a constant set
+			}
+			out = append(out, c)
+		}
+	}
+	return out
 }
